@@ -150,6 +150,71 @@ CLAIMS = {
                   "equality is not expressible as a contract on one call; labelled bounded)",
         note="set iteration order is the only modelled source of nondeterminism; the AST audit is syntactic (set-typed "
              "fields identified by name)"),
+    "C09": dict(
+        category="other",
+        text="Hybrid. Proved (pyvc): generator.run returns a cached module without running the body, stores results, "
+             "rejects circular calls and restores pending/stack on every exit; relational obligations on two symbolic "
+             "executions of the real _unique_name (z3 + cvc5 on strings): equal readable names imply equal parameter "
+             "values for string / optional-string shapes (None vs 'None' included), and a readable name always "
+             "contains '=' (never a hex digest). Bounded (labelled): memo identity, body run count, distinct names, "
+             "export-name uniqueness and name stability over three param-class shapes x 33 values and three call "
+             "forms; handed-on modules keep their name.",
+        design_ref="DESIGN.md section 4 C09",
+        technique="contract-based deductive verification incl. relational string obligations (pyvc, z3 + cvc5) + "
+                  "bounded parameter-shape family",
+        note=TB + "; hashed branch relies on md5/JSON injectivity (assumed); int/float fields bounded only"),
+    "C10": dict(
+        category="other",
+        text="Hybrid. Proved (pyvc): PortDir.flipped swaps INPUT/OUTPUT and fixes INOUT/NONE; involution lemma over the "
+             "contract; export_port_dir total. Bounded-exhaustive (labelled): flattened names, widths, visibility and "
+             "directions of ~7,500 (quick) bundle instantiations - every leaf kind at depth 1-3 with flips at every "
+             "level by constructor flag and flipped(), roles, port vs internal, plus seeded random trees - against a "
+             "reference of the documented rule.",
+        design_ref="DESIGN.md section 4 C10",
+        technique="pyvc proof of the direction flip + bounded-exhaustive run-time check of the flattening rule",
+        note=TB + "; flatten_bundle_inst_helper / replace_bundle_conn are not under a proved contract"),
+    "C13": dict(
+        category="other",
+        text="Hybrid. Proved (pyvc): export_prefix is total over the 21 prefixes and name-preserving; "
+             "export_param_value picks the variant matching the value's type and carries the value unchanged "
+             "(None -> None, TypeError outside the accepted types). Bounded (labelled): exported name/variant/exact "
+             "value (as Fraction, floats bit-for-bit) for an external module and ten ideal primitives over ints to "
+             "+-2^63, floats, 1-40 digit Decimals, strings, Literals, Prefixed x 21 prefixes; None omitted; documented "
+             "pulse renaming; to_scalar conversion.",
+        design_ref="DESIGN.md section 4 C13",
+        technique="pyvc proofs of the dispatch/table functions + bounded exactness check against rationals",
+        note=TB + "; Decimal and float are outside the solver theories"),
+    "C14": dict(
+        category="other",
+        text="Bounded only (labelled): every Prefixed comparison, hash, int(), float(), + - * neg abs scale checked "
+             "against exact rationals over all 441 ordered prefix pairs x mantissa pairs (0, +-1, prefix-boundary "
+             "values, 1-25 digits, equal values written differently); prefix tables exhaustively. No obligation is "
+             "claimed as proved: Decimal context arithmetic and float rounding are outside the solver theories and "
+             "the functions are a few lines of Decimal/Fraction calls each.",
+        design_ref="DESIGN.md section 4 C14",
+        technique="bounded run-time contract check against fractions.Fraction (no deductive part: not applicable to "
+                  "Decimal/float arithmetic)",
+        note="fractions / decimal as reference; one known finding (28-digit context precision)"),
+    "C16": dict(
+        category="other",
+        text="Hybrid. Proved (pyvc): _find_signal_or_port returns the named port, else the named signal, else raises. "
+             "Bounded (labelled): leaf devices with parameters, leaf-net partition and ports of flatten(m) equal those "
+             "of m for generated scalar/bus hierarchies (depth 1-3, primitive and external leaves, internal nets at "
+             "every level, ':'-colliding names) and a third of the shared family; a rejection is accepted only for "
+             "designs with slices/concats.",
+        design_ref="DESIGN.md section 4 C16",
+        technique="pyvc proof of the lookup helper + bounded run-time comparison through the package reader",
+        note=TB + "; walk/flatten (generator-based rewrite) are bounded only"),
+    "C17": dict(
+        category="other",
+        text="Hybrid. Proved (pyvc): export_save accepts exactly the five documented SaveTarget forms and carries the "
+             "mode / name / comma-joined names; next_analysis_name returns Analysis<k> and increments k (distinct "
+             "names); export_sweep_variable total. Bounded (labelled): SimInputs of procedurally built, add()-built "
+             "and class-defined Sims, alone and in lists sharing or not sharing a testbench, compared field by field "
+             "(floats: nearest float of the exact value); non-testbenches rejected.",
+        design_ref="DESIGN.md section 4 C17",
+        technique="pyvc proofs of dispatch functions + bounded run-time field comparison",
+        note=TB + "; export_analysis and friends are bounded only"),
 }
 
 NA_REASON = "check not built yet (work in progress; see DESIGN.md section 4 for the plan)"
